@@ -1,4 +1,4 @@
-"""C05 -- the update stream always reconstructs the node's parameter cache (sequential histories)
+"""C05 -- the update stream always reconstructs the node's parameter cache (sequential histories; thread schedules: C05_races.py)
 
 real Module.announceUpdate funnel, read/write wrappers, Parameter.__set__, real
 Dispatcher fan-out; virtual clock with symbolic non-decreasing instants; the
@@ -13,7 +13,7 @@ FUNCTIONS = ['frappy.modulebase.Module.announceUpdate', 'frappy.modulebase.HasAc
 ASSUMPTIONS = ['one module with a float, an int and a struct parameter; histories of <= 3 (quick) / 4 (thorough) operations',
                'time: t0 in [1000,1100], every step advances the virtual clock by a symbolic amount in [0, 50] s',
                'omit_unchanged_within symbolic in [0, 20] (module property) or update_unchanged in {always, never, 5 s}',
-               'sequential only: concurrent announcers / atomicity of the update lock are outside the claim']
+               'sequential histories here; concurrent announcers are explored by harness/C05_races.py']
 REQUIRED_TAGS = ['update-seen', 'error-update-seen', 'omitted']
 LIMITS = {'quick': {'max_paths': 30000, 'max_s': 150}, 'thorough': {'max_paths': 300000, 'max_s': 900}}
 
